@@ -28,7 +28,7 @@ MAX_PROCS = 12
 
 
 def gen_cases(seed, tier):
-    n = 24 if tier == "quick" else 240
+    n = 24 if tier == "quick" else 720
     return [{"cls": "lfp", "seed": seed * 1000 + i, "_w": 5} for i in range(n)]
 
 
